@@ -452,7 +452,7 @@ def strings_rule(F, rep):
         root = b["tir"]["value"]
         found = False
         for n in tir.walk(root):
-            if n.get("k") == "Index" and tir.place(n["base"]) and (strip(n["base"]).get("ty") or "").replace(" ", "") in ("[u8;%d]" % ln,):
+            if n.get("k") == "Index" and tir.place(n["base"]) and (strip(n["base"]).get("ty") or "").replace(" ", "").lstrip("&") in ("[u8;%d]" % ln,):
                 why = safety.slice_to_position(F, root, n)
                 idx = strip(n["index"])
                 if why and ("unwrap_or(%d)" % (ln - 1)) in why:
